@@ -26,7 +26,7 @@ def check(w):
         quirk = [s for s in scen if {"+p", "d-"} & {e["name"] for e in s["list"]} and len(s["dst"]) > 3]
         rest = [s for s in scen if s not in quirk]
         rnd = random.Random(w.seed)
-        scen = rnd.sample(quirk, min(len(quirk), 1500)) + rnd.sample(rest, min(len(rest), 2000))
+        scen = rnd.sample(quirk, min(len(quirk), 1000)) + rnd.sample(rest, min(len(rest), 1500))
     counts = {"traces": 0, "trace_states": 0}
     obs, rej = p_recv.run_validate_confirm(w, fam, scen, "c09", v, counts, sig, judge=JUDGE)
     nneg = p_recv.negative_controls(w, fam, obs, rej, w.seed)
